@@ -94,7 +94,7 @@ def spec_envelope(p, N, upper, interp, w):
     locs = np.array(locs)
     mags = np.array(mags, dtype=object if any(isinstance(v, common.SymReal) for v in mags) else float)
     t = np.arange(N)
-    I = S.interp
+    I = common.interp_lib()
     if interp == 'splrep':
         return np.asarray(I.splev(t, I.splrep(locs, mags)))
     if interp == 'mono_pchip':
